@@ -465,6 +465,12 @@ def defexpand_valid(nm: str, v: str, w: str, shape: int) -> bool:
     text = _expand_text(nm, v, w, shape)
     h = HedString(text, MINI, _DD)
     want = D.defexpand_verdicts(text, _REF_DEFS)[0]
+    if R.env_int("VP_PREEXPAND"):
+        # the same object after expand_defs() (which leaves a written Def-expand group as it is): the verdict
+        # must not depend on what was done to the object before
+        h.expand_defs()
+        if R.env_int("VP_PREEXPAND") == 2:
+            h = h.copy()
     issues = _DV.validate_def_tags(h)
     if want is None:
         return True                      # differs only in the letter case of a value: the property leaves it open
@@ -667,13 +673,16 @@ HARNESSES = [
              "shrink.expand = identity; a copy is a different object and leaves its source unchanged",
         oracle="models/defs_ref.py Annot.render() (E1-E3)", stubs=_STUBS, outside=_OUT),
     R.H("defexpand_valid", _T_DX,
-        quick=R.tier(cells=_dx_cells_quick(3), env={"VP_N": 1, "VP_NDEFS": 3, "VP_NODELIM": 1}, timeout=400,
-                     bound="written groups (Def-expand/<nm>[/<v>], content[<w>]) in 7 variations (exact, content "
+        quick=R.tier(cells=_dx_cells_quick(3) + [dict(c, VP_PREEXPAND=1) for c in _dx_cells_quick(3)],
+                     env={"VP_N": 1, "VP_NDEFS": 3, "VP_NODELIM": 1}, timeout=400,
+                     bound="(validated fresh, and - VP_PREEXPAND cells - after expand_defs() on the same object) "
+                           "written groups (Def-expand/<nm>[/<v>], content[<w>]) in 7 variations (exact, content "
                            "order reversed, tag after content, sibling missing / extra, second group, no content); "
                            "nm = any letter-case spelling of ab | cd | ef; printable-ASCII v, w (none of ',()') "
                            "with len <= 1"),
-        thorough=R.tier(cells=_dx_cells_thorough(), env={"VP_NV": 2}, timeout=900, path_timeout=60,
-                        bound="all five definitions (plus order inside a nested group), every printable-ASCII "
+        thorough=R.tier(cells=_dx_cells_thorough() + [dict(c, VP_PREEXPAND=2) for c in _dx_cells_quick(3)],
+                        env={"VP_NV": 2}, timeout=900, path_timeout=60,
+                        bound="(also: after expand_defs() and copy()) all five definitions (plus order inside a nested group), every printable-ASCII "
                               "v, w with len <= 1 in all variations; value definitions, exact variation: also "
                               "every v, w with len <= 2 holding none of ',()'"),
         what="DefValidator.validate_def_tags reports nothing for a written Def-expand group iff its content "
